@@ -169,14 +169,15 @@ def header_forms(header):
     return forms
 
 
-def run_loop(aldor, text, base, timeout=150):
-    """One session.  A timeout is retried once (the machine may be oversubscribed; a real hang hangs again)."""
-    for attempt in (0, 1):
+def run_loop(aldor, text, base, timeout=75, retry=True):
+    """One session (well under 1 s on an idle machine).  A timeout is retried once with twice the time (the
+    machine may be oversubscribed; a real hang hangs again)."""
+    for attempt in ((0, 1) if retry else (0,)):
         d = "%s/l%d" % (base, next(_uniq))
         os.makedirs(d)
         try:
             rc, out, err = C.run(C.aldor_base_args(aldor) + ["-gloop", "-Mname"], cwd=d, env=C.aldor_env(), input=text,
-                                 timeout=timeout)
+                                 timeout=timeout * (attempt + 1))
         finally:
             shutil.rmtree(d, ignore_errors=True)
         if rc != 124:
@@ -391,17 +392,16 @@ PROBES = [
                     ("f3(p0: Boolean, p1: MachineInteger): MachineInteger == g4999;\n", "", True),
                     ('stdout << "next" << newline;\n', "next\n", False),
                     ("stdout << f3(2) << newline;\n", "T\n", False)]},
+    {"name": "undefined-name-in-nested-if", "key": "C13 gloop:undefined-name-in-nested-if-condition:segfault-while-reporting",
+     "what": "mixed", "mode": "quiet",
+     "steps": _H + [("import from Integer;\n", "", False), ("g2: MachineInteger := 1@MachineInteger;\n", "", False),
+                    ("f3(): MachineInteger == {\n    (if (if g4999 then true else false) then g2 else g2)\n}\n", "", True),
+                    ("stdout << g2 << newline;\n", "1\n", False)]},
     {"name": "verbose-if-else", "key": "C13 gloop:verbose-mode:toplevel-if-else-with-branches-of-different-types-rejected",
      "what": "good", "mode": "verbose",
      "steps": _H + AFTER_HEADER["verbose"] + [("g0: MachineInteger := 3;\n", "", False),
                                               ('if g0 > 2 then {\n    g0 := 1;\n} else {\n    stdout << "small" << newline;\n};\n', "", False),
                                               ("stdout << g0 << newline;\n", "1\n", False)]},
-    {"name": "verbose-try", "key": "C13 gloop:verbose-mode:toplevel-try-aborts(fint.c:3616)", "what": "good", "mode": "verbose",
-     "steps": _H + [("define Ex0Type: Category == with;\n", "", False), ("Ex0: Ex0Type == add;\n", "", False)]
-     + AFTER_HEADER["verbose"]
-     + [('try {\n    stdout << "in" << newline;\n    true\n} catch E in {\n    E has Ex0Type => {\n        true\n    };\n'
-         '    true => throw E;\n    never;\n};\n', "in\n", False),
-        ('stdout << "b" << newline;\n', "b\n", False)]},
 ]
 
 
@@ -428,6 +428,8 @@ def class_key(cls, steps, out):
     """Confirmed loop defects with many instances get one key each."""
     if any(s.startswith("try {") for s, _, b in steps if not b) and cls in ("loop-crashed", "session-differs-from-batch"):
         return PROBES[2]["key"]
+    if cls == "loop-crashed" and "No meaning for identifier" in out and any(re.search(r"\bif \(if ", s) for s, _, b in steps if b):
+        return "C13 gloop:undefined-name-in-nested-if-condition:segfault-while-reporting"
     if cls == "loop-crashed" and sum(1 for s, _, b in steps if b and re.match(r"f\d+\(", s)) >= 3:
         return "C13 gloop:many-rejected-function-definitions:later-segfault"
     return None
@@ -478,7 +480,7 @@ def run(rep, tier):
     kinds_used = collections.Counter()
     positions_covered = 0
     failures = []
-    while done < n_prog and time.time() - t_start < budget:
+    while done < n_prog and time.time() - t_start < budget and len(failures) < 12:
         jobs = [(rng.randrange(1, 2 ** 40), rng.choice(sizes)) for _ in range(16 if quick else 32)]
         fs = mini.batch(["forms %d %d" % j for j in jobs])
         ms = mini.batch(["mutants %d %d %d" % (s, z, 3 if quick else 6) for s, z in jobs])
@@ -602,7 +604,7 @@ def run(rep, tier):
     shrunk = 0
     for cls, what, md, prog, steps, ins, out in failures:
         f = prog["f"]
-        if shrunk < 3:
+        if shrunk < 3 and cls != "timeout":
             shrunk += 1
             steps = shrink_session(aldor, base, cls, what, md, prog, steps, budget_s=40 if quick else 240)
             rc, o2, e2 = run_loop(aldor, session_text(md, [s for s, _, _ in steps]), base)
@@ -660,9 +662,9 @@ def _replay_obj(what, md, steps, f, out):
             "observed_transcript": out[-6000:]}
 
 
-def _judge_steps(aldor, base, what, md, steps, timeout=150):
+def _judge_steps(aldor, base, what, md, steps, timeout=75, retry=True):
     steps = [tuple(s) for s in steps]
-    rc, out, err = run_loop(aldor, session_text(md, [s for s, _, _ in steps]), base, timeout)
+    rc, out, err = run_loop(aldor, session_text(md, [s for s, _, _ in steps]), base, timeout, retry)
     out += err
     if what == "good":
         cls = judge_good(md, steps, rc, out)
@@ -738,7 +740,7 @@ def shrink_session(aldor, base, cls, what, md, prog, steps, budget_s=60):
                     continue
             if what == "mixed" and not any(b for _, _, b in rest):
                 continue
-            c2, _ = _judge_steps(aldor, base, what, md, rest)
+            c2, _ = _judge_steps(aldor, base, what, md, rest, timeout=30, retry=False)
             if c2 == cls:
                 cur = rest
                 changed = True
